@@ -850,6 +850,9 @@ class Engine:
                 return ModelRaise(c.name, args, cls=c.real)
             if isinstance(c, SClass) and c.real is not None and issubclass(c.real, BaseException):
                 return ModelRaise(c.name, [], cls=c.real)
+            v = self.callexpr(e, env)  # e.g. exc.with_traceback(tb)
+            if isinstance(v, ModelRaise):
+                return v
             raise Unsupported("raise of %r" % (c,))
         v = self.expr(e, env)
         if isinstance(v, ExcClassRef):
